@@ -1,4 +1,623 @@
 import Tfv.Model
+import Tfv.Spec.Sub
+import Tfv.Spec.Sat
+import Tfv.Proofs.SubOrder
+import Tfv.Proofs.Bounds
+import Tfv.Proofs.BoundsChain
+import Tfv.Proofs.BoundsApply
+import Tfv.Proofs.BoundsFix
+import Tfv.Proofs.BoundsTop
+import Tfv.Proofs.BoundsExamples
+/-!
+# C05 — the bound-tightening machine: closed form, order independence, monotonicity, leastness
+
+Statements only; proofs are one-liners calling lemmas of `Tfv/Proofs/Bounds*.lean`.
+Scope: constraint-free stores (`NoConstraints`), base-type arguments from one chain of the
+hierarchy (`ChainOn`: nullary operators, pairwise `Anc`-comparable, neither `Top` nor `Bottom`;
+`Top`/`Bottom` are treated in `C05_above_top`, `C05_below_bot`, `C05_bot_neutral`, `C05_top_neutral`,
+`C05_drop_neutral`, `C05_co_top`, `C05_contra_bot`).
+
+Vocabulary (defined in `Tfv/Proofs/Bounds.lean`):
+* `Op = Bool × Nat`: `(true, a)` supplies the base type `a` from below (covariant argument),
+  `(false, b)` supplies `b` from above (contravariant argument);
+* `runRaw` folds `above`/`below` over a list of supplies, `runSupply` folds the corresponding
+  `unify` calls (`unify (a) (v)` resp. `unify (v) (b)` with `subtype = true`), `aboveAll`/`belowAll`
+  fold `above`/`below` alone; all in the `Except` monad, left to right;
+* `FreshI i`: the variable record is unbound and has no bounds;
+* `IsGreatest L A lo` / `IsLeast L B up`: `lo`/`up` is the greatest/least element of the list in the
+  declared order (`none` for the empty list);
+* `Compat L ops`: every covariant argument is a subtype (`Anc`) of every contravariant one.
+-/
 namespace Tfv.C05
-theorem placeholder : True := trivial
+open Tfv Tfv.C05P
+
+/-! The running example lives in `Tfv/Proofs/BoundsExamples.lean` (`namespace Tfv.C05Ex`):
+the language `exL` with the chain `C < B < A` (operators 7, 6, 5) and an unrelated `D` (8), the
+store `exS` with one fresh variable, and the stores `exS1 … exS4` used below. -/
+open Tfv.C05Ex
+
+/-! ## 1. the bound machine on base types -/
+
+/-- **Closed form of `above` on a chain.** On a constraint-free store, for an allocated, unbound
+variable `v` without bounds and a non-empty list `as` of base types from one chain, tightening the
+lower bound with every element of `as` (in the order given, fuel at least 4) succeeds; afterwards
+the lower bound is the greatest element `m` of `as`, the wildcard flag is cleared and nothing else
+in the store has changed. -/
+theorem C05_above_chain (L : Lang) (wf : WF L) {σ : Store} (nc : NoConstraints σ) (n v : Nat)
+    (hv : v < σ.vars.length) (hf : FreshI (getVar σ v)) (as : List Nat) (hne : as ≠ [])
+    (ch : ChainOn L (fun x => x ∈ as)) :
+    ∃ m, m ∈ as ∧ (∀ a ∈ as, Anc L a m) ∧
+      aboveAll L (n+4) σ v as =
+        .ok (setVar σ v { getVar σ v with wildcard := false, lower := some m }) :=
+  above_chain L wf nc n v hv hf as hne ch
+
+example : ∃ m, m ∈ [6, 7, 5] ∧ (∀ a ∈ [6, 7, 5], Anc exL a m) ∧
+    aboveAll exL 4 exS 0 [6, 7, 5] = .ok (setVar exS 0 { getVar exS 0 with wildcard := false, lower := some m }) :=
+  C05_above_chain exL exWF exNC 0 0 (by decide) exFresh [6, 7, 5] (by simp) exChain
+
+/-- the same, field by field: lower bound `m`, no upper bound, still unbound, every other variable
+and all constraint data unchanged -/
+theorem C05_above_chain_fields (L : Lang) (wf : WF L) {σ : Store} (nc : NoConstraints σ) (n v : Nat)
+    (hv : v < σ.vars.length) (hf : FreshI (getVar σ v)) (as : List Nat) (hne : as ≠ [])
+    (ch : ChainOn L (fun x => x ∈ as)) :
+    ∃ m σ', m ∈ as ∧ (∀ a ∈ as, Anc L a m) ∧ aboveAll L (n+4) σ v as = .ok σ' ∧
+      (getVar σ' v).lower = some m ∧ (getVar σ' v).upper = none ∧ (getVar σ' v).bound = none ∧
+      (∀ w, w ≠ v → getVar σ' w = getVar σ w) ∧ σ'.csets = σ.csets ∧ σ'.constrs = σ.constrs :=
+  above_chain_fields L wf nc n v hv hf as hne ch
+
+/-- **Closed form of `below` on a chain**: the upper bound becomes the least element of `bs`. -/
+theorem C05_below_chain (L : Lang) (wf : WF L) {σ : Store} (nc : NoConstraints σ) (n v : Nat)
+    (hv : v < σ.vars.length) (hf : FreshI (getVar σ v)) (bs : List Nat) (hne : bs ≠ [])
+    (ch : ChainOn L (fun x => x ∈ bs)) :
+    ∃ m, m ∈ bs ∧ (∀ b ∈ bs, Anc L m b) ∧
+      belowAll L (n+4) σ v bs =
+        .ok (setVar σ v { getVar σ v with wildcard := false, upper := some m }) :=
+  below_chain L wf nc n v hv hf bs hne ch
+
+example : ∃ m, m ∈ [6, 7, 5] ∧ (∀ b ∈ [6, 7, 5], Anc exL m b) ∧
+    belowAll exL 4 exS 0 [6, 7, 5] = .ok (setVar exS 0 { getVar exS 0 with wildcard := false, upper := some m }) :=
+  C05_below_chain exL exWF exNC 0 0 (by decide) exFresh [6, 7, 5] (by simp) exChain
+
+/-- field by field -/
+theorem C05_below_chain_fields (L : Lang) (wf : WF L) {σ : Store} (nc : NoConstraints σ) (n v : Nat)
+    (hv : v < σ.vars.length) (hf : FreshI (getVar σ v)) (bs : List Nat) (hne : bs ≠ [])
+    (ch : ChainOn L (fun x => x ∈ bs)) :
+    ∃ m σ', m ∈ bs ∧ (∀ b ∈ bs, Anc L m b) ∧ belowAll L (n+4) σ v bs = .ok σ' ∧
+      (getVar σ' v).upper = some m ∧ (getVar σ' v).lower = none ∧ (getVar σ' v).bound = none ∧
+      (∀ w, w ≠ v → getVar σ' w = getVar σ w) ∧ σ'.csets = σ.csets ∧ σ'.constrs = σ.constrs :=
+  below_chain_fields L wf nc n v hv hf bs hne ch
+
+/-- **Order independence of `above`**: a permutation of the arguments gives the very same store. -/
+theorem C05_above_perm (L : Lang) (wf : WF L) {σ : Store} (nc : NoConstraints σ) (n v : Nat)
+    (hv : v < σ.vars.length) (hf : FreshI (getVar σ v)) (as as' : List Nat)
+    (ch : ChainOn L (fun x => x ∈ as)) (hp : as.Perm as') :
+    aboveAll L (n+4) σ v as' = aboveAll L (n+4) σ v as :=
+  above_perm L wf nc n v hv hf as as' ch hp
+
+example : aboveAll exL 4 exS 0 [5, 6, 7] = aboveAll exL 4 exS 0 [6, 7, 5] :=
+  C05_above_perm exL exWF exNC 0 0 (by decide) exFresh [6, 7, 5] [5, 6, 7] exChain (by decide)
+
+/-- **Order independence of `below`.** -/
+theorem C05_below_perm (L : Lang) (wf : WF L) {σ : Store} (nc : NoConstraints σ) (n v : Nat)
+    (hv : v < σ.vars.length) (hf : FreshI (getVar σ v)) (bs bs' : List Nat)
+    (ch : ChainOn L (fun x => x ∈ bs)) (hp : bs.Perm bs') :
+    belowAll L (n+4) σ v bs' = belowAll L (n+4) σ v bs :=
+  below_perm L wf nc n v hv hf bs bs' ch hp
+
+example : belowAll exL 4 exS 0 [5, 6, 7] = belowAll exL 4 exS 0 [6, 7, 5] :=
+  C05_below_perm exL exWF exNC 0 0 (by decide) exFresh [6, 7, 5] [5, 6, 7] exChain (by decide)
+
+/-- **Mixed, direct calls, any interleaving**: when every covariant argument is a *proper* subtype
+of every contravariant one, the run of `above`/`below` calls succeeds with lower bound the greatest
+covariant argument, upper bound the least contravariant one, and the variable still unbound. -/
+theorem C05_raw_strict (L : Lang) (wf : WF L) {σ : Store} (nc : NoConstraints σ) (n v : Nat)
+    (hv : v < σ.vars.length) (hf : FreshI (getVar σ v)) (ops : List Op)
+    (ch : ChainOn L (fun x => ∃ op ∈ ops, op.2 = x)) (hc : StrictCompat L ops) :
+    ∃ lo up, IsGreatest L (coArgs ops) lo ∧ IsLeast L (contraArgs ops) up ∧
+      runRaw L (n+4) σ v ops =
+        .ok (setVar σ v { lower := lo, upper := up,
+                          wildcard := (getVar σ v).wildcard && ops.isEmpty, cset := (getVar σ v).cset }) :=
+  raw_chain_strict L wf nc n v hv hf ops ch hc
+
+example : ∃ lo up, IsGreatest exL (coArgs exOpsS) lo ∧ IsLeast exL (contraArgs exOpsS) up ∧
+    runRaw exL 4 exS 0 exOpsS =
+      .ok (setVar exS 0 { lower := lo, upper := up,
+                          wildcard := (getVar exS 0).wildcard && exOpsS.isEmpty, cset := (getVar exS 0).cset }) :=
+  C05_raw_strict exL exWF exNC 0 0 (by decide) exFresh exOpsS exChainOpsS exStrict
+
+/-- … in particular `above` over `as` followed by `below` over `bs`. `_partial`: *proper* subtypes
+are required; when the greatest `a` equals the least `b` the direct calls may hit an internal
+assertion depending on the order of `bs` (`C05_raw_order_dependent`). The version without this
+restriction holds through `unify`: `C05_supply_chain`; and for direct calls when the bounds meet only
+at the last call: `C05_raw_eq_supply_last`. -/
+theorem C05_mixed_partial (L : Lang) (wf : WF L) {σ : Store} (nc : NoConstraints σ) (n v : Nat)
+    (hv : v < σ.vars.length) (hf : FreshI (getVar σ v)) (as bs : List Nat)
+    (ch : ChainOn L (fun x => x ∈ as ++ bs)) (hs : ∀ a ∈ as, ∀ b ∈ bs, Anc L a b ∧ a ≠ b) :
+    ∃ lo up, IsGreatest L as lo ∧ IsLeast L bs up ∧
+      (match aboveAll L (n+4) σ v as with
+       | .error e => (.error e : R)
+       | .ok σ1 => belowAll L (n+4) σ1 v bs) =
+        .ok (setVar σ v { lower := lo, upper := up,
+                          wildcard := (getVar σ v).wildcard && (as.isEmpty && bs.isEmpty),
+                          cset := (getVar σ v).cset }) :=
+  mixed_strict L wf nc n v hv hf as bs ch hs
+
+example : ∃ lo up, IsGreatest exL [7, 6] lo ∧ IsLeast exL [5] up ∧
+    (match aboveAll exL 4 exS 0 [7, 6] with
+     | .error e => (.error e : R)
+     | .ok σ1 => belowAll exL 4 σ1 0 [5]) =
+      .ok (setVar exS 0 { lower := lo, upper := up, wildcard := false, cset := 0 }) :=
+  C05_mixed_partial exL exWF exNC 0 0 (by decide) exFresh [7, 6] [5]
+    (chainOn_of_chainB exWF (by decide)) exMixedStrict
+
+/-- direct calls, strictly compatible supplies: the order is irrelevant -/
+theorem C05_raw_perm_strict (L : Lang) (wf : WF L) {σ : Store} (nc : NoConstraints σ) (n v : Nat)
+    (hv : v < σ.vars.length) (hf : FreshI (getVar σ v)) (ops ops' : List Op)
+    (ch : ChainOn L (fun x => ∃ op ∈ ops, op.2 = x)) (hc : StrictCompat L ops) (hp : ops.Perm ops') :
+    runRaw L (n+4) σ v ops' = runRaw L (n+4) σ v ops :=
+  raw_perm_strict L wf nc n v hv hf ops ops' ch hc hp
+
+/-- **Mixed, through `unify`, any interleaving, bounds may meet**: compatible supplies succeed;
+the record of `v` afterwards is `resultI`: lower bound the greatest covariant argument, upper bound
+the least contravariant one, and bound to the base type when the two coincide
+(`C05_result_bound_meet`, `C05_result_bound_apart`). -/
+theorem C05_supply_chain (L : Lang) (wf : WF L) {σ : Store} (nc : NoConstraints σ) (n v : Nat)
+    (hv : v < σ.vars.length) (hf : FreshI (getVar σ v)) (ops : List Op)
+    (ch : ChainOn L (fun x => ∃ op ∈ ops, op.2 = x)) (hc : Compat L ops) :
+    ∃ lo up, IsGreatest L (coArgs ops) lo ∧ IsLeast L (contraArgs ops) up ∧
+      runSupply L (n+5) σ v ops = .ok (setVar σ v (resultI (getVar σ v) lo up ops.isEmpty)) :=
+  supply_chain_ok L wf nc n v hv hf ops ch hc
+
+example : ∃ lo up, IsGreatest exL (coArgs exOps) lo ∧ IsLeast exL (contraArgs exOps) up ∧
+    runSupply exL 5 exS 0 exOps = .ok (setVar exS 0 (resultI (getVar exS 0) lo up exOps.isEmpty)) :=
+  C05_supply_chain exL exWF exNC 0 0 (by decide) exFresh exOps exChainOps exCompat
+
+theorem C05_result_lower (i : VarInfo) (lo up : Option Nat) (e : Bool) : (resultI i lo up e).lower = lo :=
+  resultI_lower i lo up e
+theorem C05_result_upper (i : VarInfo) (lo up : Option Nat) (e : Bool) : (resultI i lo up e).upper = up :=
+  resultI_upper i lo up e
+/-- the bounds meet: the variable is bound to that base type … -/
+theorem C05_result_bound_meet (i : VarInfo) (m : Nat) (e : Bool) :
+    (resultI i (some m) (some m) e).bound = some (.app m []) := resultI_bound_meet i m e
+/-- … and reads as it -/
+theorem C05_result_follow_meet {σ : Store} {v m : Nat} (hv : v < σ.vars.length) (i : VarInfo) (e : Bool) :
+    followT (setVar σ v (resultI i (some m) (some m) e)) (.var v) = .app m [] :=
+  supply_meet_follow hv i e
+/-- the bounds do not meet: the variable stays unbound -/
+theorem C05_result_bound_apart (i : VarInfo) (lo up : Option Nat) (e : Bool)
+    (h : lo = none ∨ up = none ∨ lo ≠ up) : (resultI i lo up e).bound = none :=
+  resultI_bound_apart i lo up e h
+
+/-- **Order independence through `unify`**: success, failure and the resulting store are the same
+for every order of the supplies (compatible or not). -/
+theorem C05_supply_perm (L : Lang) (wf : WF L) {σ : Store} (nc : NoConstraints σ) (n v : Nat)
+    (hv : v < σ.vars.length) (hf : FreshI (getVar σ v)) (ops ops' : List Op)
+    (ch : ChainOn L (fun x => ∃ op ∈ ops, op.2 = x)) (hp : ops.Perm ops') :
+    runSupply L (n+5) σ v ops' = runSupply L (n+5) σ v ops :=
+  supply_perm L wf nc n v hv hf ops ops' ch hp
+
+example : runSupply exL 5 exS 0 [(false, 5), (true, 6), (false, 6), (true, 7)] = runSupply exL 5 exS 0 exOps :=
+  C05_supply_perm exL exWF exNC 0 0 (by decide) exFresh exOps _ exChainOps (by decide)
+
+/-- **Crossing fails, through `unify`**: if some covariant argument is not a subtype of some
+contravariant one, the run is a subtype mismatch — in every order (the hypothesis is order-free). -/
+theorem C05_crossing_fails (L : Lang) (wf : WF L) {σ : Store} (nc : NoConstraints σ) (n v : Nat)
+    (hv : v < σ.vars.length) (hf : FreshI (getVar σ v)) (ops : List Op)
+    (ch : ChainOn L (fun x => ∃ op ∈ ops, op.2 = x)) (hc : ¬ Compat L ops) :
+    runSupply L (n+5) σ v ops = .error .subtypeMismatch :=
+  supply_chain_fails L wf nc n v hv hf ops ch hc
+
+example : runSupply exL 5 exS 0 exOpsX = .error .subtypeMismatch :=
+  C05_crossing_fails exL exWF exNC 0 0 (by decide) exFresh exOpsX exChainOpsX exCrossing
+
+/-- **Crossing fails, direct calls** (`_partial`: the run fails in every order, but the error need
+not be the subtype mismatch, see `C05_raw_crossing_internal`). -/
+theorem C05_crossing_fails_raw_partial (L : Lang) (wf : WF L) {σ : Store} (nc : NoConstraints σ) (n v : Nat)
+    (hv : v < σ.vars.length) (hf : FreshI (getVar σ v)) (ops : List Op)
+    (ch : ChainOn L (fun x => ∃ op ∈ ops, op.2 = x)) (hc : ¬ Compat L ops) :
+    ∃ e, runRaw L (n+4) σ v ops = .error e :=
+  raw_chain_fails L wf nc n v hv hf ops ch hc
+
+example : ∃ e, runRaw exL 4 exS 0 exOpsX = .error e :=
+  C05_crossing_fails_raw_partial exL exWF exNC 0 0 (by decide) exFresh exOpsX exChainOpsX exCrossing
+
+/-- direct calls agree with the run through `unify` as long as the variable is not bound before
+the last supply (so: bounds may meet, but only at the very end) -/
+theorem C05_raw_eq_supply_last (L : Lang) (wf : WF L) {σ : Store} (nc : NoConstraints σ) (n v : Nat)
+    (hv : v < σ.vars.length) (hf : FreshI (getVar σ v)) (ops : List Op) (op : Op)
+    (ch : ChainOn L (fun x => ∃ o ∈ ops ++ [op], o.2 = x)) (hc : StrictCompat L ops) :
+    runRaw L (n+4) σ v (ops ++ [op]) = runSupply L (n+5) σ v (ops ++ [op]) :=
+  raw_eq_supply_last L wf nc n v hv hf ops op ch hc
+
+example : runRaw exL 4 exS 0 ([(true, 7), (false, 5)] ++ [(true, 5)]) =
+    runSupply exL 5 exS 0 ([(true, 7), (false, 5)] ++ [(true, 5)]) :=
+  C05_raw_eq_supply_last exL exWF exNC 0 0 (by decide) exFresh _ _
+    (chainOn_ops_of_chainB exWF (by decide)) exStrictPre
+
+/-! ### findings: direct `above`/`below` calls are order dependent once the bounds meet -/
+
+/-- **Counterexample (direct calls, compatible supplies).** `above B; below A; below B` binds the
+variable to `B`, but `above B; below B; below A` hits the failed `assert not self.bound` of `below`:
+the second call already bound the variable. Through `unify` both orders succeed
+(`C05_supply_perm`), because `unify` follows the binding first. -/
+theorem C05_raw_order_dependent (n : Nat) :
+    runRaw exL (n+4) exS 0 [(true, 6), (false, 5), (false, 6)] =
+      .ok (setVar exS 0 { bound := some (.app 6 []), lower := some 6, upper := some 6 }) ∧
+    runRaw exL (n+4) exS 0 [(true, 6), (false, 6), (false, 5)] =
+      .error (.internal "below:assert not self.bound") ∧
+    runSupply exL (n+5) exS 0 [(true, 6), (false, 6), (false, 5)] =
+      .ok (setVar exS 0 { bound := some (.app 6 []), lower := some 6, upper := some 6 }) :=
+  raw_order_dependent n
+
+/-- **Counterexample (direct calls, crossing supplies).** `above B; below B; below C` (with `C < B`)
+fails with the internal assertion, not with the subtype mismatch that `above B; below C; below B`
+and every order through `unify` report. -/
+theorem C05_raw_crossing_internal (n : Nat) :
+    runRaw exL (n+4) exS 0 [(true, 6), (false, 6), (false, 7)] =
+      .error (.internal "below:assert not self.bound") ∧
+    runRaw exL (n+4) exS 0 [(true, 6), (false, 7), (false, 6)] = .error .subtypeMismatch ∧
+    runSupply exL (n+5) exS 0 [(true, 6), (false, 6), (false, 7)] = .error .subtypeMismatch :=
+  raw_crossing_internal n
+
+/-! ### `Top` and `Bottom` -/
+
+/-- **`above v Top`** on an unbound variable without upper bound binds it to `Top`, whatever lower
+bound it already has (`bind` checks that lower bound and accepts). -/
+theorem C05_above_top (L : Lang) (wf : WF L) {σ : Store} (nc : NoConstraints σ) (n v : Nat)
+    (hv : v < σ.vars.length) (hb : (getVar σ v).bound = none) (hu : (getVar σ v).upper = none)
+    (hl : ∀ l, (getVar σ v).lower = some l → l ≠ TOP ∧ arityOf L l = 0) :
+    above L (n+4) σ v TOP =
+      .ok (setVar σ v { getVar σ v with wildcard := false, bound := some (.app TOP []) }) :=
+  above_top L wf nc n v hv hb hu hl
+
+example : above exL 4 exS1 0 TOP =
+    .ok (setVar exS1 0 { getVar exS1 0 with wildcard := false, bound := some (.app TOP []) }) :=
+  C05_above_top exL exWF exNC1 0 0 (by decide) rfl rfl exS1_lower
+
+/-- … with an upper bound present (even `Top` itself) it is a subtype mismatch -/
+theorem C05_above_top_upper_fails (L : Lang) (wf : WF L) {σ : Store} (nc : NoConstraints σ) (n v u : Nat)
+    (hv : v < σ.vars.length) (hb : (getVar σ v).bound = none) (hu : (getVar σ v).upper = some u)
+    (hl : ∀ l, (getVar σ v).lower = some l → l ≠ TOP ∧ arityOf L l = 0) :
+    above L (n+4) σ v TOP = .error .subtypeMismatch :=
+  above_top_upper L wf nc n v u hv hb hu hl
+
+/-- **`below v Bottom`** on an unbound variable without lower bound binds it to `Bottom`. -/
+theorem C05_below_bot (L : Lang) (wf : WF L) {σ : Store} (nc : NoConstraints σ) (n v : Nat)
+    (hv : v < σ.vars.length) (hb : (getVar σ v).bound = none) (hl : (getVar σ v).lower = none)
+    (hu : ∀ u, (getVar σ v).upper = some u → u ≠ BOT ∧ arityOf L u = 0) :
+    below L (n+4) σ v BOT =
+      .ok (setVar σ v { getVar σ v with wildcard := false, bound := some (.app BOT []) }) :=
+  below_bot L wf nc n v hv hb hl hu
+
+example : below exL 4 exS 0 BOT =
+    .ok (setVar exS 0 { getVar exS 0 with wildcard := false, bound := some (.app BOT []) }) :=
+  C05_below_bot exL exWF exNC 0 0 (by decide) rfl rfl (fun u h => by cases h)
+
+/-- … with a lower bound present it is a subtype mismatch -/
+theorem C05_below_bot_lower_fails (L : Lang) (wf : WF L) {σ : Store} (nc : NoConstraints σ) (n v l : Nat)
+    (hv : v < σ.vars.length) (hb : (getVar σ v).bound = none) (hl : (getVar σ v).lower = some l)
+    (hu : ∀ u, (getVar σ v).upper = some u → arityOf L u = 0) :
+    below L (n+4) σ v BOT = .error .subtypeMismatch :=
+  below_bot_lower L wf nc n v l hv hb hl hu
+
+example : below exL 4 exS1 0 BOT = .error .subtypeMismatch :=
+  C05_below_bot_lower_fails exL exWF exNC1 0 0 6 (by decide) rfl rfl (fun u h => by cases h)
+
+/-- `Bottom` supplied from below is neutral: `unify` returns the store unchanged -/
+theorem C05_bot_neutral (L : Lang) (n : Nat) (σ : Store) (t : Term) (st sb sw : Bool) :
+    unify L (n+1) σ (.app BOT []) t st sb sw = .ok σ := unify_bot_left L n σ t st sb sw
+
+/-- `Top` supplied from above is neutral -/
+theorem C05_top_neutral (L : Lang) (n : Nat) (σ : Store) (t : Term) (st sb sw : Bool) :
+    unify L (n+1) σ t (.app TOP []) st sb sw = .ok σ := unify_top_right L n σ t st sb sw
+
+/-- neutral supplies (`Bottom` from below, `Top` from above) can be dropped from any run, so the
+closed forms above apply to the remaining supplies -/
+theorem C05_drop_neutral (L : Lang) (wf : WF L) {σ : Store} (nc : NoConstraints σ) (n v : Nat)
+    (hv : v < σ.vars.length) (hf : FreshI (getVar σ v)) (ops : List Op)
+    (h0 : ∀ op ∈ ops, arityOf L op.2 = 0) :
+    runSupply L (n+5) σ v ops = runSupply L (n+5) σ v (ops.filter fun op => !neutralB op) :=
+  supply_drop_neutral L wf nc n v hv hf ops h0
+
+/-- **`Top` among the covariant arguments** (the others from one chain, `Bottom` allowed): the run
+through `unify` succeeds and the variable is bound to `Top` — the least upper bound — whatever the
+order. (The leftover `lower` field of the bound record does depend on the order; it is never read
+again, `follow` goes through the binding.) -/
+theorem C05_co_top (L : Lang) (wf : WF L) {S : Nat → Prop} (ch : ChainOn L S) {σ : Store}
+    (nc : NoConstraints σ) (n v : Nat) (hv : v < σ.vars.length) (hf : FreshI (getVar σ v))
+    (as : List Nat) (hS : ∀ a ∈ as, S a ∨ a = TOP ∨ a = BOT) (htop : TOP ∈ as) :
+    ∃ lo, runSupply L (n+5) σ v (coOps as) =
+      .ok (setVar σ v { bound := some (.app TOP []), lower := lo, upper := none, wildcard := false,
+                        cset := (getVar σ v).cset }) :=
+  supply_co_top L wf ch nc n v hv hf as hS htop
+
+example : ∃ lo, runSupply exL 5 exS 0 (coOps [7, TOP, BOT, 6]) =
+    .ok (setVar exS 0 { bound := some (.app TOP []), lower := lo, upper := none, wildcard := false,
+                        cset := (getVar exS 0).cset }) :=
+  C05_co_top exL exWF exChain exNC 0 0 (by decide) exFresh [7, TOP, BOT, 6] (by decide) (by decide)
+
+/-- **`Bottom` among the contravariant arguments**: the variable is bound to `Bottom`. -/
+theorem C05_contra_bot (L : Lang) (wf : WF L) {S : Nat → Prop} (ch : ChainOn L S) {σ : Store}
+    (nc : NoConstraints σ) (n v : Nat) (hv : v < σ.vars.length) (hf : FreshI (getVar σ v))
+    (bs : List Nat) (hS : ∀ b ∈ bs, S b ∨ b = TOP ∨ b = BOT) (hbot : BOT ∈ bs) :
+    ∃ up, runSupply L (n+5) σ v (contraOps bs) =
+      .ok (setVar σ v { bound := some (.app BOT []), lower := none, upper := up, wildcard := false,
+                        cset := (getVar σ v).cset }) :=
+  supply_contra_bot L wf ch nc n v hv hf bs hS hbot
+
+example : ∃ up, runSupply exL 5 exS 0 (contraOps [5, BOT, TOP, 6]) =
+    .ok (setVar exS 0 { bound := some (.app BOT []), lower := none, upper := up, wildcard := false,
+                        cset := (getVar exS 0).cset }) :=
+  C05_contra_bot exL exWF exChain exNC 0 0 (by decide) exFresh [5, BOT, TOP, 6] (by decide) (by decide)
+
+/-! ## 2. monotonicity -/
+
+/-- **Replacing a covariant argument by a subtype from the same chain** never turns success into
+failure; the lower bound (hence the base type the variable may end up bound to) can only go down,
+the upper bound is unchanged. -/
+theorem C05_mono (L : Lang) (wf : WF L) {σ : Store} (nc : NoConstraints σ) (n v : Nat)
+    (hv : v < σ.vars.length) (hf : FreshI (getVar σ v)) (pre post : List Op) (a a' : Nat)
+    (ch : ChainOn L (fun x => x = a' ∨ ∃ o ∈ pre ++ (true, a) :: post, o.2 = x))
+    (haa : Anc L a' a) {σ1 : Store}
+    (h : runSupply L (n+5) σ v (pre ++ (true, a) :: post) = .ok σ1) :
+    ∃ σ2 l l', runSupply L (n+5) σ v (pre ++ (true, a') :: post) = .ok σ2 ∧
+      (getVar σ1 v).lower = some l ∧ (getVar σ2 v).lower = some l' ∧ Anc L l' l ∧
+      (getVar σ2 v).upper = (getVar σ1 v).upper :=
+  supply_mono L wf nc n v hv hf pre post a a' ch haa h
+
+example : ∃ σ2 l l', runSupply exL 5 exS 0 ([(false, 5)] ++ (true, 7) :: [(true, 6)]) = .ok σ2 ∧
+    (getVar (setVar exS 0 (resultI (getVar exS 0) (some 5) (some 5) false)) 0).lower = some l ∧
+    (getVar σ2 0).lower = some l' ∧ Anc exL l' l ∧
+    (getVar σ2 0).upper = (getVar (setVar exS 0 (resultI (getVar exS 0) (some 5) (some 5) false)) 0).upper :=
+  C05_mono exL exWF exNC 0 0 (by decide) exFresh [(false, 5)] [(true, 6)] 5 7 exChainMono
+    (anc_of_opSub exWF (by decide) (by decide) (by decide)) exMonoRun
+
+/-- the same for `above` alone -/
+theorem C05_above_mono (L : Lang) (wf : WF L) {σ : Store} (nc : NoConstraints σ) (n v : Nat)
+    (hv : v < σ.vars.length) (hf : FreshI (getVar σ v)) (pre post : List Nat) (a a' : Nat)
+    (ch : ChainOn L (fun x => x ∈ a' :: (pre ++ a :: post))) (haa : Anc L a' a) :
+    ∃ m m', aboveAll L (n+4) σ v (pre ++ a :: post) =
+        .ok (setVar σ v { getVar σ v with wildcard := false, lower := some m }) ∧
+      aboveAll L (n+4) σ v (pre ++ a' :: post) =
+        .ok (setVar σ v { getVar σ v with wildcard := false, lower := some m' }) ∧
+      Anc L m' m :=
+  above_mono L wf nc n v hv hf pre post a a' ch haa
+
+example : ∃ m m', aboveAll exL 4 exS 0 ([6] ++ 5 :: []) =
+      .ok (setVar exS 0 { getVar exS 0 with wildcard := false, lower := some m }) ∧
+    aboveAll exL 4 exS 0 ([6] ++ 7 :: []) =
+      .ok (setVar exS 0 { getVar exS 0 with wildcard := false, lower := some m' }) ∧ Anc exL m' m :=
+  C05_above_mono exL exWF exNC 0 0 (by decide) exFresh [6] [] 5 7
+    (chainOn_of_chainB exWF (by decide)) (anc_of_opSub exWF (by decide) (by decide) (by decide))
+
+/-! ## 3. lift to `unify` and `applyT` -/
+
+/-- the occurs check is false for a base type against an unbound variable -/
+theorem C05_occurs_false (L : Lang) (σ : Store) (k a v : Nat) (h0 : arityOf L a = 0)
+    (hb : (getVar σ v).bound = none) : occurs L σ k (.app a []) (.var v) = false :=
+  occurs_nullary_var L σ k a v h0 hb
+
+/-- **a covariant base-type argument meeting an unbound variable is `above`** -/
+theorem C05_unify_above (L : Lang) (σ : Store) (n a v : Nat) (h0 : arityOf L a = 0)
+    (hb : (getVar σ v).bound = none) (hne : a ≠ BOT) :
+    unify L (n+1) σ (.app a []) (.var v) true false false = above L n σ v a :=
+  unify_base_var L σ n a v h0 hb hne
+
+/-- **a contravariant one is `below`** -/
+theorem C05_unify_below (L : Lang) (σ : Store) (n b v : Nat) (h0 : arityOf L b = 0)
+    (hb : (getVar σ v).bound = none) (hne : b ≠ TOP) :
+    unify L (n+1) σ (.var v) (.app b []) true false false = below L n σ v b :=
+  unify_var_base L σ n b v h0 hb hne
+
+/-- against a variable already bound to a base type `m`, the argument is only checked -/
+theorem C05_unify_bound (L : Lang) (σ : Store) (n a v m : Nat) (ms : List Term) (h0 : arityOf L a = 0)
+    (hb : (getVar σ v).bound = some (.app m ms)) :
+    unify L (n+1) σ (.app a []) (.var v) true false false =
+      if a == BOT || m == TOP then .ok σ
+      else if !opSub L a m then .error .subtypeMismatch else .ok σ :=
+  unify_base_bound L σ n a v m ms h0 hb
+
+/-- **`x ** x ** … ** (function type)` applied to base-type arguments** supplies each of them to `x`
+in covariant position (so the run goes through `above` once per argument while `x` is unbound) and
+returns the remaining function type un-fixed. No hypothesis on the arguments is needed. -/
+theorem C05_apply_chain (L : Lang) (n v : Nat) (rs : List Term) (as : List Nat) (σ : Store) :
+    applyArgs L n σ (funN v as.length (.app FUN rs)) as =
+      match runSupply L n σ v (coOps as) with
+      | .error e => .error e
+      | .ok σ' => .ok (σ', .app FUN rs) :=
+  applyArgs_chain L n v rs as σ
+
+/-- **End to end**: `(x ** x ** … ** x).apply(a₁)…apply(aₖ)` with the `aᵢ` on one chain succeeds and
+returns their least upper bound (the greatest `aᵢ`), with `x` bound to it — whatever the order. -/
+theorem C05_apply_identity_chain (L : Lang) (wf : WF L) {σ : Store} (nc : NoConstraints σ) (n v : Nat)
+    (hv : v < σ.vars.length) (hf : FreshI (getVar σ v)) (as : List Nat) (hne : as ≠ [])
+    (ch : ChainOn L (fun x => x ∈ as)) :
+    ∃ m, m ∈ as ∧ (∀ a ∈ as, Anc L a m) ∧
+      applyArgs L (n+5) σ (funN v as.length (.var v)) as =
+        .ok (setVar σ v { getVar σ v with wildcard := false, lower := some m, bound := some (.app m []) },
+             .app m []) :=
+  apply_identity_chain L wf nc n v hv hf as hne ch
+
+example : ∃ m, m ∈ [6, 7, 5] ∧ (∀ a ∈ [6, 7, 5], Anc exL a m) ∧
+    applyArgs exL 5 exS (funN 0 3 (.var 0)) [6, 7, 5] =
+      .ok (setVar exS 0 { getVar exS 0 with wildcard := false, lower := some m, bound := some (.app m []) },
+           .app m []) :=
+  C05_apply_identity_chain exL exWF exNC 0 0 (by decide) exFresh [6, 7, 5] (by simp) exChain
+
+/-- **End to end, monotone**: replacing one argument by a subtype from the same chain keeps success
+and the returned concrete type is a subtype of the old one (never more general). -/
+theorem C05_apply_mono (L : Lang) (wf : WF L) {σ : Store} (nc : NoConstraints σ) (n v : Nat)
+    (hv : v < σ.vars.length) (hf : FreshI (getVar σ v)) (pre post : List Nat) (a a' : Nat)
+    (ch : ChainOn L (fun x => x ∈ a' :: (pre ++ a :: post))) (haa : Anc L a' a) :
+    ∃ σ1 σ2 m m',
+      applyArgs L (n+5) σ (funN v (pre ++ a :: post).length (.var v)) (pre ++ a :: post) = .ok (σ1, .app m []) ∧
+      applyArgs L (n+5) σ (funN v (pre ++ a' :: post).length (.var v)) (pre ++ a' :: post) = .ok (σ2, .app m' []) ∧
+      Anc L m' m :=
+  apply_identity_mono L wf nc n v hv hf pre post a a' ch haa
+
+example : ∃ σ1 σ2 m m',
+    applyArgs exL 5 exS (funN 0 ([6] ++ 5 :: []).length (.var 0)) ([6] ++ 5 :: []) = .ok (σ1, .app m []) ∧
+    applyArgs exL 5 exS (funN 0 ([6] ++ 7 :: []).length (.var 0)) ([6] ++ 7 :: []) = .ok (σ2, .app m' []) ∧
+    Anc exL m' m :=
+  C05_apply_mono exL exWF exNC 0 0 (by decide) exFresh [6] [] 5 7
+    (chainOn_of_chainB exWF (by decide)) (anc_of_opSub exWF (by decide) (by decide) (by decide))
+
+/-! ## 4. `fix` yields the least instantiation within the bounds
+
+`Occ L t pl x q`: entering `t` with preference flag `pl` (`true` = prefer the lower bound), `fix`
+meets the variable `x` at a position with effective flag `q` (the flag flips in contravariant
+positions). "Single polarity" is: no variable carrying a bound is met with both flags.
+`FixExt σ σ' W`: `σ'` is `σ` with some unbound variables `w` (met at flag `q`, `W w q`) bound to
+their lower (`q = true`) resp. upper bound; nothing else differs. -/
+
+/-- **What `fix` does to the store**: it binds some of the unbound variables it meets to the bound
+selected by the flag of the position (lower bound in covariant, upper bound in contravariant
+positions for `prefer_lower`), and changes nothing else. -/
+theorem C05_fix_store (L : Lang) {σ σ' : Store} {t t' : Term} {n : Nat} {pl : Bool}
+    (nc : NoConstraints σ) (hfix : fix L n σ t pl = .ok (σ', t'))
+    (unb : ∀ x q, Occ L t pl x q → (getVar σ x).bound = none) : FixExt σ σ' (Occ L t pl) :=
+  fix_store L nc hfix unb
+
+/-- the term returned by `fix` is the input read through the new store -/
+theorem C05_fix_term (L : Lang) (n : Nat) (σ : Store) (t : Term) (pl : Bool) (σ' : Store) (t' : Term)
+    (unb : ∀ v, t = .var v → (getVar σ v).bound = none)
+    (h : fix L n σ t pl = .ok (σ', t')) : t' = followT σ' t :=
+  fix_term L n σ t pl σ' t' unb h
+
+/-- **Leastness of `fix`** (`_partial`, because of the side condition `indep`, which the informal
+statement lacks and which cannot be dropped, see `C05_fix_needs_indep`).
+On a constraint-free store whose bounds are base types of `L`, let `t` be a well-formed term whose
+variables are unbound and such that no variable carrying a bound is met with both polarities. If
+`fix t` (prefer lower) succeeds with store `σ'` and term `t'`, then every solution `ρ` of `σ` is
+dominated by a solution `ρ'` of `σ'`: `ρ'` agrees with `ρ` on every variable whose binding did not
+change, `den ρ' t` is a subtype of `den ρ t`, and `t'` denotes the same type as `t` under `ρ'`.
+`indep`: the variables mentioned in pre-existing bindings are not among those bound by this `fix`. -/
+theorem C05_fix_least_partial (L : Lang) {σ σ' : Store} {t t' : Term} {n : Nat}
+    (nc : NoConstraints σ) (hfix : fix L n σ t true = .ok (σ', t'))
+    (unb : ∀ x q, Occ L t true x q → (getVar σ x).bound = none)
+    (ρ : Val) (sat : Sat L ρ σ)
+    (okb : ∀ w, okBound L (getVar σ w).lower ∧ okBound L (getVar σ w).upper)
+    (indep : ∀ w s x, (getVar σ w).bound = some s → HasVar s x →
+      (getVar σ' x).bound = (getVar σ x).bound)
+    (sp : ∀ x, Occ L t true x true → Occ L t true x false →
+      (getVar σ x).lower = none ∧ (getVar σ x).upper = none)
+    (okt : okTerm L σ t = true) :
+    ∃ ρ', Sat L ρ' σ' ∧
+      (∀ w, (getVar σ' w).bound = (getVar σ w).bound → ρ' w = ρ w) ∧
+      Sub L (den ρ' t) (den ρ t) ∧ den ρ' t' = den ρ' t :=
+  fix_least_lower L nc hfix unb ρ sat okb indep sp okt
+
+/-- the same with a side condition on `σ` alone: variables mentioned in bindings carry no bounds -/
+theorem C05_fix_least_static_partial (L : Lang) {σ σ' : Store} {t t' : Term} {n : Nat}
+    (nc : NoConstraints σ) (hfix : fix L n σ t true = .ok (σ', t'))
+    (unb : ∀ x q, Occ L t true x q → (getVar σ x).bound = none)
+    (ρ : Val) (sat : Sat L ρ σ)
+    (okb : ∀ w, okBound L (getVar σ w).lower ∧ okBound L (getVar σ w).upper)
+    (indep : ∀ w s x, (getVar σ w).bound = some s → HasVar s x →
+      (getVar σ x).lower = none ∧ (getVar σ x).upper = none)
+    (sp : ∀ x, Occ L t true x true → Occ L t true x false →
+      (getVar σ x).lower = none ∧ (getVar σ x).upper = none)
+    (okt : okTerm L σ t = true) :
+    ∃ ρ', Sat L ρ' σ' ∧
+      (∀ w, (getVar σ' w).bound = (getVar σ w).bound → ρ' w = ρ w) ∧
+      Sub L (den ρ' t) (den ρ t) ∧ den ρ' t' = den ρ' t :=
+  fix_least_lower_static L nc hfix unb ρ sat okb indep sp okt
+
+/-- both polarities, general flag: `SubDir L pl new old` is `Sub new old` for `pl = true` and
+`Sub old new` for `pl = false` (`fix(prefer_lower = False)` yields the greatest instantiation) -/
+theorem C05_fix_extremal_partial (L : Lang) {σ σ' : Store} {t t' : Term} {n : Nat} (pl : Bool)
+    (nc : NoConstraints σ) (hfix : fix L n σ t pl = .ok (σ', t'))
+    (unb : ∀ x q, Occ L t pl x q → (getVar σ x).bound = none)
+    (ρ : Val) (sat : Sat L ρ σ)
+    (okb : ∀ w, okBound L (getVar σ w).lower ∧ okBound L (getVar σ w).upper)
+    (indep : ∀ w s x, (getVar σ w).bound = some s → HasVar s x →
+      (getVar σ' x).bound = (getVar σ x).bound)
+    (sp : ∀ x, Occ L t pl x true → Occ L t pl x false →
+      (getVar σ x).lower = none ∧ (getVar σ x).upper = none)
+    (okt : okTerm L σ t = true) :
+    ∃ ρ', Sat L ρ' σ' ∧
+      (∀ w, (getVar σ' w).bound = (getVar σ w).bound → ρ' w = ρ w) ∧
+      SubDir L pl (den ρ' t) (den ρ t) :=
+  fix_least L pl nc hfix unb ρ sat okb indep sp okt
+
+/-- **Leastness of `fix` on acyclic stores** (the faithful full form). On a constraint-free store
+whose bounds are base types of `L`, whose bindings are well-formed and acyclic (`rank` decreases
+from a bound variable to the variables of its binding — what the occurs check maintains), let `t`
+be a well-formed term whose variables are unbound and such that no variable carrying a bound is met
+with both polarities. If `fix t` (prefer lower) succeeds with store `σ'` and term `t'`, then every
+solution `ρ` of `σ` is dominated by a solution `ρ'` of `σ'` that agrees with `ρ` on every variable
+still unbound: `den ρ' t` is a subtype of `den ρ t`, and `t'` denotes the same type as `t`. -/
+theorem C05_fix_least (L : Lang) {σ σ' : Store} {t t' : Term} {n : Nat}
+    (nc : NoConstraints σ) (hfix : fix L n σ t true = .ok (σ', t'))
+    (unb : ∀ x q, Occ L t true x q → (getVar σ x).bound = none)
+    (ρ : Val) (sat : Sat L ρ σ)
+    (okb : ∀ w, okBound L (getVar σ w).lower ∧ okBound L (getVar σ w).upper)
+    (okbind : ∀ w s, (getVar σ w).bound = some s → okTerm L σ s = true)
+    (rank : Nat → Nat)
+    (acyc : ∀ w s x, (getVar σ w).bound = some s → HasVar s x → rank x < rank w)
+    (sp : ∀ x, Occ L t true x true → Occ L t true x false →
+      (getVar σ x).lower = none ∧ (getVar σ x).upper = none)
+    (okt : okTerm L σ t = true) :
+    ∃ ρ', Sat L ρ' σ' ∧
+      (∀ w, (getVar σ' w).bound = none → ρ' w = ρ w) ∧
+      Sub L (den ρ' t) (den ρ t) ∧ den ρ' t' = den ρ' t :=
+  fix_least_acyclic_lower L nc hfix unb ρ sat okb okbind rank acyc sp okt
+
+/-- general flag: `fix(prefer_lower = False)` yields the greatest instantiation -/
+theorem C05_fix_extremal (L : Lang) {σ σ' : Store} {t t' : Term} {n : Nat} (pl : Bool)
+    (nc : NoConstraints σ) (hfix : fix L n σ t pl = .ok (σ', t'))
+    (unb : ∀ x q, Occ L t pl x q → (getVar σ x).bound = none)
+    (ρ : Val) (sat : Sat L ρ σ)
+    (okb : ∀ w, okBound L (getVar σ w).lower ∧ okBound L (getVar σ w).upper)
+    (okbind : ∀ w s, (getVar σ w).bound = some s → okTerm L σ s = true)
+    (rank : Nat → Nat)
+    (acyc : ∀ w s x, (getVar σ w).bound = some s → HasVar s x → rank x < rank w)
+    (sp : ∀ x, Occ L t pl x true → Occ L t pl x false →
+      (getVar σ x).lower = none ∧ (getVar σ x).upper = none)
+    (okt : okTerm L σ t = true) :
+    ∃ ρ', Sat L ρ' σ' ∧
+      (∀ w, (getVar σ' w).bound = none → ρ' w = ρ w) ∧
+      SubDir L pl (den ρ' t) (den ρ t) :=
+  fix_least_acyclic L pl nc hfix unb ρ sat okb okbind rank acyc sp okt
+
+/-! ### examples
+`exS2`: `x₀ ≤ A`, `C ≤ x₁`; `fix (x₀ ** x₁)` binds `x₀ := A` (contravariant: upper bound) and
+`x₁ := C` (covariant: lower bound) — `exFix2`; `exRho` sends both to `B`.
+`exS3`: `B ≤ x₀`, `x₁` bound to `x₀ ** Unit`; `fix x₀` binds `x₀ := B` — `exFix3`. -/
+
+example : ∃ ρ', Sat exL ρ' exS2' ∧
+    (∀ w, (getVar exS2' w).bound = (getVar exS2 w).bound → ρ' w = exRho w) ∧
+    Sub exL (den ρ' (.app FUN [.var 0, .var 1])) (den exRho (.app FUN [.var 0, .var 1])) ∧
+    den ρ' (.app FUN [.var 0, .var 1]) = den ρ' (.app FUN [.var 0, .var 1]) :=
+  C05_fix_least_static_partial exL exNC2 exFix2 exUnb2 exRho exSat2 exOkb2
+    (fun w s _ hs _ => (exNoBind2 w s hs).elim) exSp2 (by decide)
+
+example : ∃ ρ', Sat exL ρ' exS3' ∧ (∀ w, (getVar exS3' w).bound = none → ρ' w = exRho3 w) ∧
+    Sub exL (den ρ' (.var 0)) (den exRho3 (.var 0)) ∧ den ρ' (.app 6 []) = den ρ' (.var 0) :=
+  C05_fix_least exL (noConstraints_of_all (by decide)) exFix3 exUnb3 exRho3 exSat3 exOkb3 exOkbind3
+    id exAcyc3 exSp3 (by decide)
+
+/-! ### findings: the side conditions are needed -/
+
+/-- **Counterexample: `indep` cannot be dropped from `C05_fix_least_partial`**, i.e. the clause
+"`ρ'` agrees with `ρ` on every variable that `fix` did not bind" is too strong in general.
+In `exS3` variable 1 is bound to `x₀ ** Unit` and `x₀` has lower bound `B`; `exRho3` sends `x₀` to `A`.
+`fix x₀` binds `x₀ := B` (`exFix3`), and no solution of the new store agrees with `exRho3` on
+variable 1, which `fix` did not bind. (`C05_fix_least` still applies to this store.) -/
+theorem C05_fix_needs_indep :
+    fix exL 4 exS3 (.var 0) true = .ok (exS3', .app 6 []) ∧ Sat exL exRho3 exS3 ∧
+    ¬ ∃ ρ', Sat exL ρ' exS3' ∧
+      (∀ w, (getVar exS3' w).bound = (getVar exS3 w).bound → ρ' w = exRho3 w) :=
+  ⟨exFix3, exSat3, exNo3⟩
+
+/-- **Counterexample: single polarity cannot be dropped.** In `exS4`, `x₀` has lower bound `B` and
+occurs on both sides of `x₀ ** x₀`; `exRho4` sends it to `A`. `fix` binds `x₀ := B` (`exFix4`), and
+`B ** B` is not a subtype of `A ** A`. -/
+theorem C05_fix_needs_single_polarity :
+    fix exL 7 exS4 (.app FUN [.var 0, .var 0]) true = .ok (exS4', .app FUN [.var 0, .var 0]) ∧
+    Sat exL exRho4 exS4 ∧
+    ¬ ∃ ρ', Sat exL ρ' exS4' ∧
+      Sub exL (den ρ' (.app FUN [.var 0, .var 0])) (den exRho4 (.app FUN [.var 0, .var 0])) :=
+  ⟨exFix4, exSat4, exNo4⟩
+
 end Tfv.C05
